@@ -399,3 +399,289 @@ Lemma source_facts :
   g_DRI_RULE = 1 /\ g_RAW_ADVANCE = 1 /\ g_DQT_INDEX_CHECK = 1 /\ g_HUFF_TBLNO_CHECK_FIRST = 1 /\
   g_M_SOI = 216 /\ g_M_EOI = 217 /\ g_BUFSIZE = 512 /\ g_BIT_BUF_SIZE = 64.
 Proof. repeat split; reflexivity. Qed.
+
+(* ================================================================= not re-emitted unless regenerated *)
+Definition unsent1 (st : wstate) (slot : Z) : Z := if is_sent st slot then 0 else 1.
+
+Lemma is_sent_set_sent st sl h s : 0 <= sl -> 0 <= s -> get_tbl st sl = Some h ->
+  is_sent (set_sent st sl h) s = if sl =? s then true else is_sent st s.
+Proof.
+  intros Hsl Hs Eg. unfold is_sent, set_sent, get_tbl in *. cbn [w_tbls].
+  destruct (Z.eq_dec sl s) as [<-|Hne].
+  - rewrite Z.eqb_refl.
+    destruct (Nat.lt_ge_cases (Z.to_nat sl) (length (w_tbls st))) as [Hlt|Hge].
+    + rewrite (nth_upd_same'' (Z.to_nat sl)) by exact Hlt. reflexivity.
+    + exfalso. rewrite nth_overflow in Eg by lia. discriminate.
+  - replace (sl =? s) with false by lia. rewrite (nth_upd_other'' (Z.to_nat sl) (Z.to_nat s)) by lia. reflexivity.
+Qed.
+
+Lemma emit_dqt_count st index m st' p slot : 0 <= slot ->
+  emit_dqt st index = inr (m, st', p) -> count_defs slot m + unsent1 st' slot <= unsent1 st slot.
+Proof.
+  intros Hslot. unfold emit_dqt, unsent1. change (g_DQT_INDEX_CHECK =? 1) with true. intro H.
+  destruct (tblno_ok index) eqn:Eok; [|discriminate]. cbn [negb andb] in H. apply tblno_ok_range in Eok. unfold qslot in *.
+  destruct (get_tbl st index) as [q|] eqn:Eg; [|discriminate].
+  destruct (t_sent q) eqn:Es.
+  - injection H as <- <- _. unfold count_defs. cbn. destruct (is_sent st slot); lia.
+  - injection H as <- <- _. unfold count_defs. cbn [filter defines]. unfold qslot.
+    rewrite (is_sent_set_sent st index q slot ltac:(lia) Hslot Eg).
+    destruct (index =? slot) eqn:E.
+    + assert (index = slot) by lia. subst slot. unfold is_sent. rewrite Eg, Es. cbn [length]. lia.
+    + cbn [length]. destruct (is_sent st slot); lia.
+Qed.
+
+Lemma emit_dht_count' st index is_ac m st' slot : 0 <= slot ->
+  emit_dht st index is_ac = inr (m, st') -> count_defs slot m + unsent1 st' slot <= unsent1 st slot.
+Proof. intros Hs H. unfold unsent1. exact (proj1 (emit_dht_count st index is_ac m st' slot Hs H)). Qed.
+
+Lemma dqt_loop_count slot : 0 <= slot -> forall comps st acc prec m st' p,
+  dqt_loop st comps acc prec = inr (m, st', p) ->
+  count_defs slot m + unsent1 st' slot <= count_defs slot acc + unsent1 st slot.
+Proof.
+  intros Hs. induction comps as [|c r IH]; intros st acc prec m st' p H; cbn [dqt_loop] in H.
+  - injection H as <- <- _. lia.
+  - destruct (emit_dqt st (k_tq c)) as [e|[[m1 st1] p1]] eqn:E; [discriminate|].
+    pose proof (emit_dqt_count _ _ _ _ _ slot Hs E). specialize (IH _ _ _ _ _ _ H). rewrite count_defs_app in IH. lia.
+Qed.
+
+Lemma dht_loop_count img s slot : 0 <= slot -> forall comps st acc m st',
+  dht_loop img s st comps acc = inr (m, st') ->
+  count_defs slot m + unsent1 st' slot <= count_defs slot acc + unsent1 st slot.
+Proof.
+  intros Hs. induction comps as [|ci r IH]; intros st acc m st' H; cbn [dht_loop] in H.
+  - injection H as <- <-. lia.
+  - cbv zeta in H.
+    destruct (if needs_dc img s then emit_dht st (k_td (get_comp img ci)) false else inr ([], st)) as [e|[m1 st1]] eqn:E1; [discriminate|].
+    destruct (if needs_ac img s then emit_dht st1 (k_ta (get_comp img ci)) true else inr ([], st1)) as [e|[m2 st2]] eqn:E2; [discriminate|].
+    assert (A1 : count_defs slot m1 + unsent1 st1 slot <= unsent1 st slot).
+    { destruct (needs_dc img s); [exact (emit_dht_count' _ _ _ _ _ slot Hs E1)|]. injection E1 as <- <-. unfold count_defs; cbn; lia. }
+    assert (A2 : count_defs slot m2 + unsent1 st2 slot <= unsent1 st1 slot).
+    { destruct (needs_ac img s); [exact (emit_dht_count' _ _ _ _ _ slot Hs E2)|]. injection E2 as <- <-. unfold count_defs; cbn; lia. }
+    specialize (IH _ _ _ _ H). rewrite !count_defs_app in IH. lia.
+Qed.
+
+Lemma count_defs_nodef slot m : (forall x, In x m -> defines slot x = false) -> count_defs slot m = 0.
+Proof.
+  intro H. unfold count_defs. induction m as [|x m IH]; [reflexivity|]. cbn [filter].
+  rewrite (H x (or_introl eq_refl)). apply IH. intros y Hy. apply H. right; exact Hy.
+Qed.
+
+Lemma unsent1_bounds st slot : 0 <= unsent1 st slot <= 1.
+Proof. unfold unsent1. destruct (is_sent st slot); lia. Qed.
+
+Lemma step_event_count img scans data regen slot e st m st' : 0 <= slot ->
+  step_event img scans data regen e st = inr (m, st') ->
+  count_defs slot m + unsent1 st' slot <= unsent1 st slot + (match e with EvGather _ => 1 | _ => 0 end).
+Proof.
+  intros Hs H. destruct e; cbn [step_event] in H.
+  - unfold write_file_header in H. injection H as <- <-. rewrite count_defs_nodef.
+    + unfold unsent1, is_sent, get_tbl. cbn [w_tbls]. lia.
+    + intros x Hx. cbn [app] in Hx. destruct Hx as [<-|Hx]; [reflexivity|]. apply in_app_or in Hx.
+      destruct Hx as [Hx|Hx]; [destruct (im_jfif img) as [[[[[? ?] ?] ?] ?]|]|destruct (im_adobe img)]; cbn in Hx;
+        try contradiction; destruct Hx as [<-|[]]; reflexivity.
+  - unfold write_frame_header in H. destruct (im_lossless img).
+    + injection H as <- <-. unfold count_defs. cbn. lia.
+    + destruct (dqt_loop st (im_comps img) [] 0) as [x|[[m1 st1] p]] eqn:E; [discriminate|]. injection H as <- <-.
+      pose proof (dqt_loop_count slot Hs _ _ _ _ _ _ _ E) as A. rewrite count_defs_app.
+      unfold count_defs at 2. cbn [filter defines length]. unfold count_defs at 2 in A. cbn in A. lia.
+  - unfold write_scan_header in H. set (s := scans scan) in *.
+    destruct (im_arith img).
+    + destruct (dri_step (w_last_ri st) (sp_ri s)) as [emit last']. injection H as <- <-.
+      rewrite count_defs_nodef.
+      * unfold unsent1, is_sent, get_tbl. cbn [w_tbls]. lia.
+      * intros x Hx. apply in_app_or in Hx. destruct Hx as [Hx|Hx].
+        -- unfold emit_dac in Hx. match type of Hx with In _ (match ?l with _ => _ end) => destruct l end; [contradiction|].
+           destruct Hx as [<-|[]]. reflexivity.
+        -- apply in_app_or in Hx. destruct Hx as [Hx|Hx]; [destruct emit; cbn in Hx; try contradiction; destruct Hx as [<-|[]]; reflexivity|].
+           destruct Hx as [<-|[]]. reflexivity.
+    + destruct (dht_loop img s st (sp_comps s) []) as [x|[m1 st1]] eqn:E; [discriminate|].
+      destruct (dri_step (w_last_ri st1) (sp_ri s)) as [emit last']. injection H as <- <-.
+      pose proof (dht_loop_count img s slot Hs _ _ _ _ _ E) as A. unfold count_defs at 2 in A. cbn in A.
+      rewrite count_defs_app. rewrite (count_defs_nodef slot (_ ++ [sos_of img s])).
+      * unfold unsent1, is_sent, get_tbl in *. cbn [w_tbls]. lia.
+      * intros x Hx. apply in_app_or in Hx. destruct Hx as [Hx|Hx]; [destruct emit; cbn in Hx; try contradiction; destruct Hx as [<-|[]]; reflexivity|].
+        destruct Hx as [<-|[]]. reflexivity.
+  - injection H as <- <-. unfold count_defs. cbn. pose proof (unsent1_bounds (regen scan st) slot). pose proof (unsent1_bounds st slot). lia.
+  - injection H as <- <-. unfold count_defs. cbn. lia.
+  - injection H as <- <-. unfold count_defs. cbn. lia.
+Qed.
+
+(* over a whole datastream: a table slot (DQT or DHT) is defined at most once, plus once per statistics pass,
+   and not at all by the first if its sent_table flag was set -- for ANY regeneration function *)
+Theorem tables_not_reemitted_lemma : forall img scans data regen slot ev st tr, 0 <= slot ->
+  assemble img scans data regen ev st = inr tr ->
+  count_defs slot tr <= unsent1 st slot + gathers ev.
+Proof.
+  intros img scans data regen slot ev. induction ev as [|e r IH]; intros st tr Hs H; cbn [assemble] in H.
+  - injection H as <-. unfold count_defs, gathers. cbn. pose proof (unsent1_bounds st slot). lia.
+  - destruct (step_event img scans data regen e st) as [x|[m st']] eqn:E; [discriminate|].
+    destruct (assemble img scans data regen r st') as [x|t] eqn:Ea; [discriminate|]. injection H as <-.
+    pose proof (step_event_count _ _ _ _ slot _ _ _ _ Hs E) as A. specialize (IH _ _ Hs Ea).
+    rewrite count_defs_app. unfold gathers in *. cbn [filter].
+    destruct e; cbn [length] in *; try lia.
+Qed.
+
+(* quantisation tables are never regenerated by a pass: with the modelled statistics pass each DQT slot is written
+   at most once per datastream *)
+Lemma regen_std_keeps_quant img scans newc k st slot : 0 <= slot < 4 ->
+  get_tbl (regen_std img scans newc k st) slot = get_tbl st slot.
+Proof.
+  intros Hs. unfold regen_std. cbv zeta.
+  assert (G : forall l st1, get_tbl st1 slot = get_tbl st slot ->
+     get_tbl (fold_left (fun st ci => let c := get_comp img ci in
+               let st1 := if needs_dc img (scans k) && tblno_ok (k_td c) then unsend (newc k) st (dcslot (k_td c)) else st in
+               if needs_ac img (scans k) && tblno_ok (k_ta c) then unsend (newc k) st1 (acslot (k_ta c)) else st1) l st1) slot = get_tbl st slot).
+  { induction l as [|ci r IH]; intros st1 H1; cbn [fold_left]; [exact H1|]. apply IH. cbv zeta.
+    assert (U : forall s0 sl, 4 <= sl -> get_tbl (unsend (newc k) s0 sl) slot = get_tbl s0 slot).
+    { intros s0 sl Hsl. unfold get_tbl, unsend. cbn [w_tbls]. apply nth_upd_other''. lia. }
+    destruct (needs_dc img (scans k) && tblno_ok (k_td (get_comp img ci))) eqn:E1;
+      destruct (needs_ac img (scans k) && tblno_ok (k_ta (get_comp img ci))) eqn:E2; rewrite ?U; try exact H1.
+    all: try (apply andb_prop in E1; destruct E1 as [_ E1]; apply tblno_ok_range in E1).
+    all: try (apply andb_prop in E2; destruct E2 as [_ E2]; apply tblno_ok_range in E2).
+    all: unfold acslot, dcslot; lia. }
+  apply G. reflexivity.
+Qed.
+
+Theorem dqt_at_most_once_lemma : forall img scans data newc slot ev st tr, 0 <= slot < 4 ->
+  assemble img scans data (regen_std img scans newc) ev st = inr tr ->
+  count_defs slot tr <= unsent1 st slot.
+Proof.
+  intros img scans data newc slot ev. induction ev as [|e r IH]; intros st tr Hs H; cbn [assemble] in H.
+  - injection H as <-. unfold count_defs. cbn. pose proof (unsent1_bounds st slot). lia.
+  - destruct (step_event img scans data (regen_std img scans newc) e st) as [x|[m st']] eqn:E; [discriminate|].
+    destruct (assemble img scans data (regen_std img scans newc) r st') as [x|t] eqn:Ea; [discriminate|]. injection H as <-.
+    specialize (IH _ _ Hs Ea). rewrite count_defs_app.
+    destruct e; try (pose proof (step_event_count _ _ _ _ slot _ _ _ _ ltac:(lia) E) as A; cbn in A; lia).
+    cbn [step_event] in E. injection E as <- <-.
+    assert (unsent1 (regen_std img scans newc scan st) slot = unsent1 st slot).
+    { unfold unsent1, is_sent. rewrite regen_std_keeps_quant by exact Hs. reflexivity. }
+    unfold count_defs at 1. cbn. lia.
+Qed.
+
+(* ================================================================= abbreviated datastreams (two streams) *)
+Lemma wt_loop_inv emit present :
+  (forall st d i m st', emit st i = inr (m, st') -> inv st d -> inv st' (fold_left dview_step m d)) ->
+  forall idx st d acc m st', wt_loop st emit present idx acc = inr (m, st') ->
+    inv st (fold_left dview_step acc d) -> inv st' (fold_left dview_step m d).
+Proof.
+  intros Hemit. induction idx as [|i r IH]; intros st d acc m st' H Hi; cbn [wt_loop] in H.
+  - injection H as <- <-. exact Hi.
+  - destruct (present st i).
+    + destruct (emit st i) as [e|[m1 st1]] eqn:E; [discriminate|].
+      apply (IH _ _ _ _ _ H). rewrite fold_dview_app. apply (Hemit _ _ _ _ _ E Hi).
+    + apply (IH _ _ _ _ _ H Hi).
+Qed.
+
+(* jpeg_write_tables keeps the reader's knowledge in step with the sent_table flags ... *)
+Lemma write_tables_only_inv arith st d m st' :
+  write_tables_only arith st = inr (m, st') -> inv st d -> inv st' (fold_left dview_step m d).
+Proof.
+  unfold write_tables_only. cbv zeta. intros H Hi.
+  set (st0 := {| w_tbls := w_tbls st; w_last_ri := 0 |}) in *.
+  assert (I0 : inv st0 (fold_left dview_step [MkSOI] d)).
+  { cbn [fold_left dview_step]. destruct Hi as [L1 [L2 [Hri Ht]]]. unfold inv, st0, get_tbl, dget in *. cbn.
+    split; [exact L1|]. split; [exact L2|]. split; [reflexivity|exact Ht]. }
+  destruct (wt_loop st0 _ (has qslot) tbl_idx [MkSOI]) as [e|[m1 st1]] eqn:E1; [discriminate|].
+  assert (I1 : inv st1 (fold_left dview_step m1 d)).
+  { refine (wt_loop_inv _ _ _ _ _ _ _ _ _ E1 I0).
+    intros s0 d0 i m0 s1 Hx Hy. destruct (emit_dqt s0 i) as [e|[[mm ss] pp]] eqn:Eq; [discriminate|].
+    injection Hx as <- <-. exact (proj1 (emit_dqt_inv _ _ _ _ _ _ Eq Hy)). }
+  assert (Iend : forall mm ss, inv ss (fold_left dview_step mm d) -> inv ss (fold_left dview_step (mm ++ [MkEOI]) d)).
+  { intros mm ss Hx. rewrite fold_dview_app. cbn [fold_left dview_step]. exact Hx. }
+  destruct arith.
+  - injection H as <- <-. apply Iend. exact I1.
+  - destruct (wt_loop st1 _ (fun _ _ => true) tbl_idx m1) as [e|[m2 st2]] eqn:E2; [discriminate|].
+    injection H as <- <-. apply Iend.
+    refine (wt_loop_inv _ _ _ _ _ _ _ _ _ E2 I1).
+    intros s0 d0 i m0 s1 Hx Hy.
+    destruct (if has dcslot s0 i then emit_dht s0 i false else inr ([], s0)) as [e|[ma sa]] eqn:Ea; [discriminate|].
+    destruct (if has acslot sa i then emit_dht sa i true else inr ([], sa)) as [e|[mb sb]] eqn:Eb; [discriminate|].
+    injection Hx as <- <-.
+    assert (Ia : inv sa (fold_left dview_step ma d0)).
+    { destruct (has dcslot s0 i); [exact (proj1 (emit_dht_inv _ _ _ _ _ _ Ea Hy))|injection Ea as <- <-; exact Hy]. }
+    rewrite fold_dview_app.
+    destruct (has acslot sa i); [exact (proj1 (emit_dht_inv _ _ _ _ _ _ Eb Ia))|injection Eb as <- <-; exact Ia].
+Qed.
+
+(* ... hence the two-stream theorem: a reader that has read the tables-only datastream knows, at every point of use
+   in ANY following image datastream written from the resulting state (e.g. jpeg_start_compress(write_all_tables =
+   FALSE): no table in it), every table and the restart interval with the encoder's content *)
+Theorem abbreviated_streams_lemma : forall arith st d tr1 st1 img scans data regen ev,
+  inv st d -> write_tables_only arith st = inr (tr1, st1) -> regen_ok regen ->
+  audit img scans data regen ev st1 (fold_left dview_step tr1 d) = true /\
+  (exists body, bytes_of tr1 = [255; 216] ++ body ++ [255; 217]).
+Proof.
+  intros arith st d tr1 st1 img scans data regen ev Hi Hw Hreg. split.
+  - apply tables_before_use_lemma; [exact Hreg|]. exact (write_tables_only_inv _ _ _ _ _ Hw Hi).
+  - unfold write_tables_only in Hw. cbv zeta in Hw.
+    assert (G : forall emit present idx st0 acc m st', wt_loop st0 emit present idx acc = inr (m, st') -> exists t, m = acc ++ t).
+    { intros emit present. induction idx as [|i r IH]; intros st0 acc m st' H; cbn [wt_loop] in H.
+      - injection H as <- <-. exists []. rewrite app_nil_r. reflexivity.
+      - destruct (present st0 i); [|exact (IH _ _ _ _ H)].
+        destruct (emit st0 i) as [e|[m1 s1]]; [discriminate|]. destruct (IH _ _ _ _ H) as [t ->]. exists (m1 ++ t). rewrite app_assoc. reflexivity. }
+    match type of Hw with match ?X with _ => _ end = _ => destruct X as [e|[m1 s1]] eqn:E1 end; [discriminate|].
+    destruct (G _ _ _ _ _ _ _ E1) as [t1 ->].
+    destruct arith.
+    + injection Hw as Hx _. subst tr1. exists (bytes_of t1). unfold bytes_of. cbn [flat_map]. rewrite !flat_map_app. cbn [flat_map encode_mk]. unfold marker.
+      change g_M_SOI with 216. change g_M_EOI with 217. cbn [app]. rewrite ?app_nil_r. reflexivity.
+    + match type of Hw with match ?X with _ => _ end = _ => destruct X as [e|[m2 s2]] eqn:E2 end; [discriminate|].
+      destruct (G _ _ _ _ _ _ _ E2) as [t2 ->]. injection Hw as Hx _. subst tr1.
+      exists (bytes_of t1 ++ bytes_of t2). unfold bytes_of. cbn [flat_map]. rewrite !flat_map_app. cbn [flat_map encode_mk]. unfold marker.
+      change g_M_SOI with 216. change g_M_EOI with 217. cbn [app]. rewrite ?app_nil_r, <- ?app_assoc. reflexivity.
+Qed.
+
+(* ================================================================= application markers *)
+Lemma api_write_marker_state g next code data m :
+  api_write_marker g next code data = inr m ->
+  next = 0 /\ g <> CSTATE_START /\ Z.of_nat (length data) <= 65533 /\ m = [MkApp code data].
+Proof.
+  unfold api_write_marker. intro H.
+  destruct (negb (next =? 0) || match g with CSTATE_START => true | _ => false end) eqn:E; [discriminate|].
+  change g_MARKER_MAX_DATA with 65533 in H. destruct (Z.of_nat (length data) >? 65533) eqn:E2; [discriminate|]. injection H as <-.
+  apply orb_false_elim in E. destruct E as [E3 E4]. repeat split; try lia. intro; subst g; discriminate.
+Qed.
+
+Lemma apps_invisible (a : list mk) (apps : list (Z * list Z)) (t : list mk) d :
+  fold_left dview_step (a ++ map (fun x => MkApp (fst x) (snd x)) apps ++ t) d = fold_left dview_step (a ++ t) d.
+Proof.
+  rewrite !fold_left_app. f_equal. generalize (fold_left dview_step a d). induction apps as [|x apps IH]; intro d0; [reflexivity|].
+  cbn [map fold_left dview_step]. apply IH.
+Qed.
+
+(* markers the application writes after jpeg_start_compress do not disturb the framing nor what the reader knows *)
+Theorem app_markers_lemma : forall img scans data regen apps n optimize dcr st d, 1 <= n ->
+  regen_ok regen -> inv st d ->
+  exists ev, run_master n optimize dcr = Some ev /\
+    forall tr, assemble_with_apps img scans data regen apps ev st = inr tr ->
+      (exists body, bytes_of tr = [255; 216] ++ body ++ [255; 217]) /\
+      (forall tr0, assemble img scans data regen ev st = inr tr0 ->
+         fold_left dview_step tr d = fold_left dview_step tr0 d).
+Proof.
+  intros img scans data regen apps n optimize dcr st d Hn Hreg Hi.
+  destruct (stream_complete_full_lemma img scans data regen n optimize dcr st Hn) as [ev [E Hfull]].
+  exists ev. split; [exact E|]. intros tr Ha.
+  unfold run_master in E. cbv zeta in E.
+  destruct (run_passes _ optimize dcr _ _) as [r|] eqn:Er; [|discriminate]. injection E as <-.
+  cbn [assemble_with_apps] in Ha. unfold write_file_header in Ha.
+  set (hd0 := [MkSOI] ++ match im_jfif img with Some (ma, mi, u, x, y) => [MkAPP0 ma mi u x y] | None => [] end ++
+              match im_adobe img with Some t => [MkAPP14 t] | None => [] end) in *.
+  destruct (assemble img scans data regen r _) as [x|t] eqn:Et; [discriminate|]. injection Ha as <-.
+  assert (H0 : assemble img scans data regen (EvSOI :: r) st = inr (hd0 ++ t)).
+  { cbn [assemble step_event]. unfold write_file_header. fold hd0. rewrite Et. reflexivity. }
+  split.
+  - assert (Hlast : exists t0, t = t0 ++ [MkEOI]).
+    { pose proof (stream_complete_partial_lemma n optimize dcr Hn) as [ev' [E' [_ [L' _]]]].
+      unfold run_master in E'. cbv zeta in E'. rewrite Er in E'. injection E' as <-.
+      destruct r as [|e0 r0]; [cbn in L'; discriminate|].
+      assert (Hne : e0 :: r0 <> []) by discriminate. destruct (exists_last Hne) as [r1 [x Hx]]. rewrite Hx in *.
+      assert (x = EvEOI). { change (EvSOI :: r1 ++ [x]) with ((EvSOI :: r1) ++ [x]) in L'. rewrite last_last in L'. exact L'. }
+      subst x. exact (assemble_last _ _ _ _ _ _ _ Et). }
+    destruct Hlast as [t0 ->]. unfold hd0.
+    set (rest := match im_jfif img with Some (ma, mi, u, x, y) => [MkAPP0 ma mi u x y] | None => [] end ++
+                 match im_adobe img with Some t => [MkAPP14 t] | None => [] end).
+    exists (bytes_of rest ++ bytes_of (map (fun a => MkApp (fst a) (snd a)) apps) ++ bytes_of t0).
+    unfold bytes_of. cbn [flat_map]. rewrite !flat_map_app. cbn [flat_map encode_mk]. unfold marker.
+    change g_M_SOI with 216. change g_M_EOI with 217. cbn [app]. rewrite ?app_nil_r, <- ?app_assoc. reflexivity.
+  - intros tr0 H1. rewrite H0 in H1. injection H1 as <-.
+    exact (apps_invisible hd0 apps t d).
+Qed.
